@@ -14,7 +14,7 @@ Suites
                          same graph; rdflib's XML and JSON outputs are well-formed.
   xmlout   (conformance) RDF/XML output well-formedness on and around the regions of findings C05j/C05k.
   relref   (conformance) one relative IRI reference per Turtle/TriG document, every RFC 3986 kind x every kind of base x
-                         @base / BASE / publicID, against the harness's own RFC 3986 5.2 resolver (findings C05l-o).
+                         @base / BASE / publicID, against the harness's own RFC 3986 5.2 resolver (findings C05l-p, repaired by 2947bd7e).
 """
 from __future__ import annotations
 
@@ -625,65 +625,10 @@ def rfc_resolve(base, ref):
         (("?" + tq) if tq is not None else "") + (("#" + rf) if rf is not None else "")
 
 
-def join_as_is(here, there):
-    """What notation3.join computes on the unchanged tree (transcribed; used ONLY to keep the writers outside the
-    regions of findings C05l-o and to predict the failing cells of suite relref; never as an oracle)."""
-    slashl, colonl = there.find("/"), there.find(":")
-    if colonl >= 0 and (slashl < 0 or colonl < slashl):
-        return there
-    bcolonl = here.find(":")
-    h = there.find("#")
-    path, frag = (there, "") if h < 0 else (there[:h], there[h:])
-    if not path:
-        return here + frag
-    if here[bcolonl + 1: bcolonl + 2] != "/":
-        return None
-    bpath = here.find("/", bcolonl + 3) if here[bcolonl + 1: bcolonl + 3] == "//" else bcolonl + 1
-    if bpath < 0:
-        bpath = len(here)
-        here = here + "/"
-    if there[:2] == "//":
-        return here[: bcolonl + 1] + there
-    if there[:1] == "/":
-        return here[:bpath] + there
-    slashr = here.rfind("/")
-    while True:
-        if path[:2] == "./":
-            path = path[2:]
-        if path == ".":
-            path = ""
-        elif path[:3] == "../" or path == "..":
-            path = path[3:]
-            i = here.rfind("/", bpath, slashr)
-            if i >= 0:
-                here = here[: i + 1]
-                slashr = i
-        else:
-            break
-    return here[: slashr + 1] + path + frag
-
-
-def effective_base(base, via):
-    return base.split("#")[0] if via == "publicID" else base      # only publicID is stripped of its fragment
-
-
-def rel_region(base, ref, via):
-    """finding number whose region (base, ref) lies in, 0 = none"""
-    if join_as_is(effective_base(base, via), ref) == rfc_resolve(base, ref):
-        return 0
-    rpath = ref.split("#")[0].split("?")[0]
-    colon, slash = ref.find(":"), ref.find("/")
-    if uri_split(ref)[0] is None and colon >= 0 and (slash < 0 or colon < slash):
-        return 16      # C05p a colon in the query or fragment of a relative reference: taken for an absolute IRI
-    if ref.startswith("?"):
-        return 12      # C05l query-only reference
-    if "/./" in rpath or "/../" in rpath or rpath.endswith(("/.", "/..")):
-        return 13      # C05m dot segments after the first segment
-    if "?" in base.split("#")[0]:
-        return 14      # C05n base with a query
-    if "#" in base and via != "publicID":
-        return 15      # C05o @base/BASE with a fragment
-    return 99          # a disagreement outside every known region: never excused
+# (Until 2947bd7e notation3.join disagreed with RFC 3986 in five regions - findings C05l-p: query-only references, dot
+# segments after the first segment, bases with a query, @base/BASE with a fragment, a colon in the query/fragment of a
+# relative reference.  The writers used to stay outside them and suite relref predicted the failing cells with a
+# transcription of the old join; since the repair every cell has to agree with rfc_resolve and nothing is excused.)
 
 
 BASES = ["http://e", "http://e/", "http://e/d/", "http://e/d/x", "http://e/d/e/f", "http://e/d/x?q=1", "http://e/d/x#frag",
@@ -866,12 +811,11 @@ class TurtleWriter:
         self.flags = set()
 
     def relative(self, s):
-        """a relative reference for s against the document's base: any RFC 3986 kind that resolves to s (own resolver)
-        and lies outside the regions of findings C05l-o; None if there is none"""
+        """a relative reference for s against the document's base: any RFC 3986 kind that resolves to s (own resolver);
+        None if there is none"""
         if not self.use_base:
             return None
-        ok = [r for r in dict.fromkeys(rel_candidates(self.base, s))
-              if rfc_resolve(self.base, r) == s and rel_region(self.base, r, self.via) == 0]
+        ok = [r for r in dict.fromkeys(rel_candidates(self.base, s)) if rfc_resolve(self.base, r) == s]
         return self.rng.choice(ok) if ok else None
 
     def ws(self, must=True):
@@ -1361,7 +1305,7 @@ class Conf(Suite):
     oeq = "bools_eqb"
     spec = "conf_spec"
     kf = "conf_kf"
-    kf_ids = {10: "C05j", 11: "C05k", 12: "C05l", 13: "C05m", 14: "C05n", 15: "C05o", 16: "C05p"}
+    kf_ids = {10: "C05j", 11: "C05k"}
     CHECKS: list = []
 
     def predicted(self, case):
@@ -1664,10 +1608,6 @@ class RelRef(Conf):
                     for pos in ("subject", "prefix"):
                         yield {"format": "turtle", "base": b, "ref": r, "via": via, "pos": pos}
 
-    def predicted(self, case):
-        k = rel_region(case["base"], case["ref"], case["via"])
-        return (k, ["resolved"]) if k else (0, [])
-
     def run_impl(self, case):
         b, r = case["base"], case["ref"]
         head = f"@base <{b}> .\n" if case["via"] == "@base" else f"BASE <{b}>\n" if case["via"] == "BASE" else ""
@@ -1687,7 +1627,7 @@ class RelRef(Conf):
         return {"resolved": iris == {exp} or (exp in ("a:s", "a:p", "a:o") and not iris)}
 
     def features(self, case, obs):
-        return {"via_" + case["via"]: 1, "pos_" + case["pos"]: 1, "in_known_region": int(self.predicted(case)[0] != 0)}
+        return {"via_" + case["via"]: 1, "pos_" + case["pos"]: 1}
 
 
 SUITES = [NtOut(), LangTag(), NtRead(), Spell(), Sources(), XmlOut(), RelRef()]
